@@ -400,6 +400,10 @@ impl Space for RoundTotal {
     }
 }
 
+/// Days fields of the tie battery: both parities and signs, a day count at which a double no longer holds
+/// a nanosecond next to it (200), and even / odd counts at and beyond 2^31 and 2^32.
+const ROUND_TIES_DAYS: [i128; 13] = [0, 1, 2, 3, -1, -3, 200, -201, 1 << 31, (1 << 31) + 1, 1 << 32, -(1 << 32), (1 << 32) + 1];
+
 /// Ties and their neighbours for every (unit, increment), with a non-zero days field next to the
 /// time part: the total (a day counting 24 h) is what is rounded, not the time part alone.
 pub struct RoundTies {
@@ -411,15 +415,15 @@ impl Space for RoundTies {
         self.name.into()
     }
     fn len(&self) -> u64 {
-        7 * 6
+        7 * ROUND_TIES_DAYS.len() as u64
     }
     fn block(&self) -> u64 {
         1
     }
     fn eval(&self, i: u64, out: &mut Out) {
-        let ix = unrank(i, &[6, 7]);
+        let ix = unrank(i, &[ROUND_TIES_DAYS.len() as u64, 7]);
         let smallest = 3 + ix[1];
-        let days = [0i128, 1, 2, 3, -1, -3][ix[0]];
+        let days = ROUND_TIES_DAYS[ix[0]];
         let unit_ns = r3::UNIT_NS[smallest - 3];
         for inc in increments_for(smallest, self.tier) {
             let step = unit_ns * inc as i128;
